@@ -3,5 +3,7 @@ CONSTANTS
   Thresholds = {1, 2, 3}
   MaxResults = 8
   CmpStrict = TRUE
+  MaxReconf = 2
+  IgnoreSameInterval = FALSE
 INVARIANTS FlipsAtThreshold
 CHECK_DEADLOCK FALSE
